@@ -120,6 +120,10 @@ def eval_case(ctx, case):
     if summary is None:
         if gen_races:
             return Verdict.violated("DATA RACE with an access in generated code (%s)" % gen_races[0]["top_frames"], {"race": gen_races[0], "template-data": td}, tags)
+        cr = drvrun.crash_in_generated(r)
+        if cr:
+            return Verdict.violated("the test binary linked with the generated mocks died under concurrent use (%s) with a generated file on the stack (%s)" % (
+                cr["crash"], cr["generated_frame"]), dict(cr, **{"template-data": td}), tags)
         return Verdict.inconclusive("driver did not run to completion (exit %s): %s" % (r.exit, (r.out + r.err)[-1200:]))
     cnt = summary["counters"]
     for k, v in cnt.items():
